@@ -330,18 +330,22 @@ def ob_closures(typ, sys, m):
     def run(I):
         c = qenv.csys(sys)
         out = []
-        for flag in (False, True):
-            nv = c03.n_var(typ, d, m, flag)
-            v = vec_of(I, "x", nv)
-            tmpl = c03.make_obj(typ, c, (SymNd([0.0] * ns) if nd.has_sym(v) else np.zeros(ns)), m, flag)
-            obj = tmpl.generate_from_var(v)
-            f = tmpl.func_calc_proj_eq_constraint()
-            out.append(Eq(f"[flag={flag}] func_calc_proj_eq_constraint()(var) == obj.calc_proj_eq_constraint().to_var()",
-                          f(v.copy()), obj.calc_proj_eq_constraint().to_var(), 0.0))
-            g = tmpl.func_calc_proj_eq_constraint_with_var()
-            out.append(Eq(f"[flag={flag}] func_calc_proj_eq_constraint_with_var()(var) == static method",
-                          g(v.copy()), proj_var(typ, "eq", c, v.copy(), flag), 0.0))
-            out.append(Eq(f"[flag={flag}] object-level closure == variable-level closure", f(v.copy()), g(v.copy())))
+        for tflag in (False, True):
+            for aflag in (None, False, True):
+                # the closure's explicit on_para_eq_constraint argument overrides the object's own flag; None keeps it
+                flag = tflag if aflag is None else aflag
+                tag = f"[object flag={tflag}, argument={aflag}]"
+                nv = c03.n_var(typ, d, m, flag)
+                v = vec_of(I, "x", nv)
+                tmpl = c03.make_obj(typ, c, (SymNd([0.0] * ns) if nd.has_sym(v) else np.zeros(ns)), m, tflag)
+                obj = tmpl.generate_from_var(v, on_para_eq_constraint=flag)
+                f = tmpl.func_calc_proj_eq_constraint(aflag) if aflag is not None else tmpl.func_calc_proj_eq_constraint()
+                out.append(Eq(f"{tag} func_calc_proj_eq_constraint()(var) == obj.calc_proj_eq_constraint().to_var()",
+                              f(v.copy()), obj.calc_proj_eq_constraint().to_var(), 0.0))
+                g = tmpl.func_calc_proj_eq_constraint_with_var(aflag) if aflag is not None else tmpl.func_calc_proj_eq_constraint_with_var()
+                out.append(Eq(f"{tag} func_calc_proj_eq_constraint_with_var()(var) == static method",
+                              g(v.copy()), proj_var(typ, "eq", c, v.copy(), flag), 0.0))
+                out.append(Eq(f"{tag} object-level closure == variable-level closure", f(v.copy()), g(v.copy())))
         return out
     return FnOb(reals("x", ns, -BOX, BOX), run)
 
